@@ -7,6 +7,8 @@ From Coq Require Import Bool NArith List Arith Lia Permutation.
 Import ListNotations.
 From RsddV Require Import Base.Bdd Model.UnitProp Model.TopDown Model.Wmc Proofs.Wmc Proofs.TopDown.
 From RsddV Require Import Proofs.UnitProp Proofs.UnitPropHash Proofs.TopDownSem.
+From RsddV Require Import Model.TopDownStore Proofs.TopDownSemStore.
+From RsddV Require Import Model.Semirings Model.SemHash Proofs.SemHash Generated.Constants.
 From RsddV Require Model.Compile.
 
 (* ---- conditioning ---- *)
@@ -59,34 +61,38 @@ Proof. exact residual_sem. Qed.
 Print Assumptions C06_cache_hit_sound.
 
 (* ---- the compiler ---- *)
-(* MAIN (cache-less algorithm: every lookup misses): for every CNF and every order that is a
+(* the cache-less algorithm (every lookup misses), which needs no guard at all: for every CNF and every order that is a
    permutation of its variables the compiler returns (never out of fuel), the false constant
    exactly when the CNF is unsatisfiable, a diagram denoting exactly the CNF, in which no path
    decides a variable twice.  No further hypothesis. *)
-Theorem C06_main : forall order raw,
+Theorem C06_topdown_correct_nocache : forall order raw,
   Permutation order (seq 0 (cnf_num_vars (cnf_new raw))) ->
   exists r, compile_raw false order false false raw = Some r /\
     (r = BF <-> forall x, Compile.cnf_eval (cnfN raw) x = false) /\
     (forall x, den r x = Compile.cnf_eval (cnfN raw) x) /\ free_bdd r.
 Proof. exact topdown_correct_nocache. Qed.
-Check C06_main : forall order raw,
-  Permutation order (seq 0 (cnf_num_vars (cnf_new raw))) ->
-  exists r, compile_raw false order false false raw = Some r /\
-    (r = BF <-> forall x, Compile.cnf_eval (cnfN raw) x = false) /\
-    (forall x, den r x = Compile.cnf_eval (cnfN raw) x) /\ free_bdd r.
-Print Assumptions C06_main.
+Print Assumptions C06_topdown_correct_nocache.
 
-(* WITH the component cache, as coded: under C09's guard (0 < product of the literal primes <
-   2^128, which makes "equal hash => equal residual formula" a theorem, C09_hash_injective) the
-   compiler returns, the false constant exactly for unsatisfiable CNFs, and the result denotes
-   exactly the CNF: caching and unit propagation never change the denoted function. *)
-Theorem C06_topdown_correct : forall order raw,
+(* MAIN.  WITH the component cache, as coded -- the FULL statement: under C09's guard (0 < product of the
+   literal primes < 2^128, which makes "equal hash => equal residual formula" a theorem,
+   C09_hash_injective) the compiler returns, the false constant exactly for unsatisfiable CNFs,
+   the result denotes exactly the CNF, and no path decides a variable twice.  Freeness with the
+   cache rests on: every returned diagram tests only variables of the residual formula of the
+   state it was built in (unset in every state with that residual), because a decision on a
+   variable outside the residual propagates nothing, leaves hash and satisfied flag unchanged,
+   and its second arm hits the entry the first arm stored -- pointer-equal arms, no node. *)
+Theorem C06_main : forall order raw,
   Permutation order (seq 0 (cnf_num_vars (cnf_new raw))) -> hash_guard raw ->
   exists r, compile_raw false order false true raw = Some r /\
     (r = BF <-> forall x, Compile.cnf_eval (cnfN raw) x = false) /\
-    (forall x, den r x = Compile.cnf_eval (cnfN raw) x).
+    (forall x, den r x = Compile.cnf_eval (cnfN raw) x) /\ free_bdd r.
 Proof. exact topdown_correct. Qed.
-Print Assumptions C06_topdown_correct.
+Check C06_main : forall order raw,
+  Permutation order (seq 0 (cnf_num_vars (cnf_new raw))) -> hash_guard raw ->
+  exists r, compile_raw false order false true raw = Some r /\
+    (r = BF <-> forall x, Compile.cnf_eval (cnfN raw) x = false) /\
+    (forall x, den r x = Compile.cnf_eval (cnfN raw) x) /\ free_bdd r.
+Print Assumptions C06_main.
 
 (* the same with cache soundness as an explicit hypothesis about the solver model's cur_hash
    (any clause list with labels in range and C09's rem_adj_ok) *)
@@ -95,27 +101,123 @@ Theorem C06_topdown_correct_hyp : forall order cls nvars,
   (forall s0, sat_new false cls nvars = NewSome s0 -> hash_ok s0) ->
   exists r, compile_cnf_topdown false order false true cls nvars = Some r /\
     (r = BF <-> forall x, Compile.cnf_eval (cnfN cls) x = false) /\
-    (forall x, den r x = Compile.cnf_eval (cnfN cls) x).
+    (forall x, den r x = Compile.cnf_eval (cnfN cls) x) /\ free_bdd r.
 Proof. exact topdown_correct_hyp. Qed.
 Print Assumptions C06_topdown_correct_hyp.
 
-(* PARTIAL: "no path decides a variable twice" for the cached compiler.  Full statement: *)
-Definition C06_full_statement : Prop := topdown_full_statement.
-(* proved: for every run whose ghost flag stays true, i.e. in which no cache hit returned a diagram
-   that tests a variable assigned at the time of the hit (compile_raw_g is compile_raw plus that
-   flag; the flag is evaluated by the extracted driver on every correspondence case, and the
-   harness oracle checks the paths of the real diagrams). *)
-Theorem C06_topdown_free_partial : forall order raw,
-  Permutation order (seq 0 (cnf_num_vars (cnf_new raw))) -> hash_guard raw ->
-  exists r fl, compile_raw_g order true raw = Some (r, fl) /\
-    compile_raw false order false true raw = Some r /\ (fl = true -> free_bdd r).
-Proof. exact topdown_free_partial. Qed.
-Print Assumptions C06_topdown_free_partial.
+(* no cache hit ever returns a diagram that tests a variable assigned at the time of the hit: the
+   ghost flag of the instrumented compiler (compile_raw_g, erased by C06_ghost_erasure) stays true *)
+Theorem C06_no_stale_cache_hit : forall order uc raw,
+  Permutation order (seq 0 (cnf_num_vars (cnf_new raw))) -> (uc = true -> hash_guard raw) ->
+  exists r, compile_raw_g order uc raw = Some (r, true).
+Proof. exact no_stale_hit. Qed.
+Print Assumptions C06_no_stale_cache_hit.
 
 Theorem C06_ghost_erasure : forall order uc raw,
   compile_raw false order false uc raw = option_map fst (compile_raw_g order uc raw).
 Proof. exact compile_raw_g_erase. Qed.
 Print Assumptions C06_ghost_erasure.
+
+(* the two operational facts about the propagator behind it *)
+Theorem C06_implied_literals_in_residual : forall cls fuel w m a w' m1,
+  w_ok (length cls) w -> up_decide false cls fuel w m a = URes w' (Some m1) ->
+  forall v, pm_get m v = None -> pm_get m1 v <> None -> v = lvar a \/ inresb cls m v = true.
+Proof. intros cls fuel. exact (proj1 (up_new_in_res cls fuel)). Qed.
+Print Assumptions C06_implied_literals_in_residual.
+
+Theorem C06_second_arm_replays : forall order fuel L s c fl r s' c' fl',
+  topdown_hg order true fuel s L c fl = Some (r, s', c', fl') -> sat_is_sat s = false ->
+  forall sb flb, s_nvars sb = s_nvars s -> sat_is_sat sb = false -> sat_cur_hash sb = sat_cur_hash s ->
+  (forall l, L <= l -> l < s_nvars s -> sat_is_set sb (nth l order 0) = sat_is_set s (nth l order 0)) ->
+  exists flb', topdown_hg order true fuel sb L c' flb = Some (r, sb, c', flb').
+Proof. exact replay. Qed.
+Print Assumptions C06_second_arm_replays.
+
+(* ---- the semantic-hash node store (CONDITIONAL on hash injectivity, C11) ---- *)
+(* get_or_insert of SemanticDecisionNNFBuilder ("the node stored under this hash, or the complement
+   of the node stored under the negated hash, else store it") returns a pointer denoting the
+   requested node, provided the hash is injective on the set D of requested nodes (closed under
+   negation; its members free with variables in the weight map): C11_semantic_correct_if_injective *)
+Theorem C06_sem_get_or_insert_correct : forall (m : mode) (P : N) (w : wmap) (D : bdd -> Prop),
+  In P exported_primes -> weights_ok P w = true ->
+  (forall p, D p -> free_bdd p /\ vars_in p w) -> (forall p, D p -> D (neg p)) ->
+  (forall p q, D p -> D q -> hash_m m P w p = hash_m m P w q -> feq (den p) (den q)) ->
+  forall st v lo hi r st',
+  sem_inv m P w st -> sem_get_or_insert m P w st v lo hi = Some (r, st') -> sem_good D st' ->
+  feq (den r) (den (BN false v lo hi)) /\ sem_inv m P w st' /\ r <> BF.
+Proof. intros m P w D HP HW Hwf Hneg Hinj. exact (sem_get_or_insert_correct m P w HP HW D Hwf Hneg Hinj). Qed.
+Print Assumptions C06_sem_get_or_insert_correct.
+
+(* hence the top-down compiler over the semantic store (Model/TopDownStore.v: the same algorithm
+   with get_or_insert abstracted, instantiated with sem_get_or_insert) returns the false constant
+   exactly for unsatisfiable CNFs and otherwise a diagram denoting the CNF -- IF the hash is
+   injective on the nodes the run requested (ss_log) and their negations, and under C09's guard
+   for the component cache.  The unconditional claim over the 64-bit field is NOT a theorem
+   (C11_hash_injective_refuted); it is C11's exploration half and this check's truth-table oracle.
+   Nothing is claimed about path freeness for this store. *)
+Theorem C06_semantic_store_correct_if_injective :
+  forall (m : mode) (P : N) (w : wmap) (D : bdd -> Prop) order raw rx st,
+  In P exported_primes -> weights_ok P w = true ->
+  (forall p, D p -> free_bdd p /\ vars_in p w) -> (forall p, D p -> D (neg p)) ->
+  (forall p q, D p -> D q -> hash_m m P w p = hash_m m P w q -> feq (den p) (den q)) ->
+  Permutation order (seq 0 (cnf_num_vars (cnf_new raw))) -> hash_guard raw ->
+  compile_raw_sem m P w order raw = Some (rx, st) ->
+  (forall p, In p (ss_log st) -> D p) ->
+  (rx = BF <-> forall x, Compile.cnf_eval (cnfN raw) x = false) /\
+  (forall x, den rx x = Compile.cnf_eval (cnfN raw) x).
+Proof.
+  intros m P w D order raw rx st HP HW Hwf Hneg Hinj.
+  exact (semantic_store_correct_if_injective m P w HP HW D Hwf Hneg Hinj order raw rx st).
+Qed.
+Print Assumptions C06_semantic_store_correct_if_injective.
+
+(* generic form: ANY node store whose get_or_insert keeps an invariant, only grows, never returns
+   a constant and (in a good final store) returns a pointer denoting the requested node simulates
+   the standard store: same solver run, denotationally equal results, same false constants *)
+Theorem C06_any_store_simulates_standard : forall (St : Type) mk order (inv good : St -> Prop) (mono : St -> St -> Prop),
+  (forall st, mono st st) -> (forall a b c, mono a b -> mono b c -> mono a c) ->
+  (forall a b, mono a b -> good b -> good a) ->
+  (forall st v lo hi r st', inv st -> mk st v lo hi = Some (r, st') -> inv st' /\ mono st st' /\ r <> BF) ->
+  (forall st v lo hi r st', inv st -> mk st v lo hi = Some (r, st') -> good st' ->
+     forall x, den r x = if x v then den hi x else den lo x) ->
+  forall cls nvars st0 rx st', inv st0 -> compile_x St mk order cls nvars st0 = Some (rx, st') -> good st' ->
+  exists r, compile_cnf_topdown false order false true cls nvars = Some r /\ rel r rx.
+Proof. exact compile_x_rel. Qed.
+Print Assumptions C06_any_store_simulates_standard.
+
+(* non-vacuity of the semantic-store theorem: (x0 v x1)(-x0 v -x1) in the 64-bit field; the run
+   requests three nodes, the second one ((1 F T)) is answered by the COMPLEMENT of the first
+   ((1 T F)) through the negated hash; D = the three requested nodes and their negations satisfies
+   every hypothesis (injectivity checked pair by pair) *)
+Definition sP : N := prime_U64_LARGEST.
+Definition sw : wmap := [((sP - 12345678901234567 + 1)%N, 12345678901234567%N); ((sP - 98765432109876543 + 1)%N, 98765432109876543%N)].
+Definition sraw : list clause := [[(0, true); (1, true)]; [(0, false); (1, false)]].
+Definition slog : list bdd := [BN false 0%N (BN true 1%N BT BF) (BN false 1%N BT BF); BN false 1%N BF BT; BN false 1%N BT BF].
+Definition sD (p : bdd) : Prop := In p (slog ++ map neg slog).
+Example C06_semantic_nonvacuous :
+  In sP exported_primes /\ weights_ok sP sw = true /\
+  (forall p, sD p -> free_bdd p /\ vars_in p sw) /\ (forall p, sD p -> sD (neg p)) /\
+  (forall p q, sD p -> sD q -> hash_m Checked sP sw p = hash_m Checked sP sw q -> feq (den p) (den q)) /\
+  match compile_raw_sem Checked sP sw [0; 1] sraw with
+  | Some (r, st) => ss_log st = slog /\ r = BN false 0%N (BN true 1%N BT BF) (BN false 1%N BT BF) /\
+                    length (ss_tbl st) = 2
+  | None => False
+  end.
+Proof.
+  split; [vm_compute; tauto|split; [vm_compute; reflexivity|split; [|split; [|split]]]].
+  - intros p Hp. unfold sD in Hp. cbn [slog map app neg negb] in Hp.
+    assert (G : forall q, (free_bdd q /\ forallb (fun v => Nat.ltb (N.to_nat v) 2) (support q) = true) ->
+                          free_bdd q /\ vars_in q sw).
+    { intros q [A B]. split; [exact A|]. intros v Hv. rewrite forallb_forall in B. apply Nat.ltb_lt. apply B. exact Hv. }
+    repeat (destruct Hp as [<-|Hp]; [apply G; split; [simpl; intuition discriminate|reflexivity]|]); destruct Hp.
+  - intros p Hp. unfold sD in *. cbn [slog map app neg negb] in *.
+    repeat (destruct Hp as [<-|Hp]; [simpl; tauto|]); destruct Hp.
+  - intros p q Hp Hq. unfold sD in Hp, Hq. cbn [slog map app neg negb] in Hp, Hq.
+    repeat (destruct Hp as [<-|Hp]; [|]); try destruct Hp;
+    repeat (destruct Hq as [<-|Hq]; [|]); try destruct Hq;
+    intros E; try (vm_compute in E; discriminate E); intros a; simpl; destruct (a 0%N), (a 1%N); reflexivity.
+  - vm_compute. repeat split.
+Qed.
 
 (* D9: with the pinned root loop an unsatisfiable CNF with a root-implied literal compiled to the
    node (2 F F) instead of the false constant; the code as it is now returns the constant *)
